@@ -73,6 +73,16 @@ func c15ValuesBuild(r *engine.Run, lattice int) []uint64 {
 			add(int64(t) + d)
 		}
 	}
+	// carry boundaries of every bit: values whose low j bits are all ones (the next tick carries into bit j), at
+	// several places of the range - code that splits a time into blocks, halves or words shows at its seams
+	for j := uint(0); j <= 32; j++ {
+		for _, b := range []uint64{0, 1, 2, 5, 0x2AAAAAAA, 0xFFFFFFFF} {
+			v := (b<<(j+1) | (1<<j - 1)) & c15Max
+			for d := int64(-1); d <= 1; d++ {
+				add(int64(v) + d)
+			}
+		}
+	}
 	// extra seeded values: not deciding, only extra coverage
 	x := uint64(r.Seed)*0x9E3779B97F4A7C15 + 12345
 	for i := 0; i < 8; i++ {
@@ -184,6 +194,9 @@ func c15Distances(thorough bool) []uint64 {
 	for d := uint64(1); d <= 64; d++ {
 		set[d] = struct{}{}
 	}
+	for k := uint(7); k <= 27; k++ {
+		set[1<<k-1], set[1<<k], set[1<<k+1] = struct{}{}, struct{}{}, struct{}{}
+	}
 	for _, d := range []uint64{c15L - 2, c15L - 1, c15L, c15L / 2, 90000, 1 << 20, 1<<27 - 1, 1 << 27} {
 		if d >= 1 && d <= c15L {
 			set[d] = struct{}{}
@@ -259,7 +272,7 @@ func init() {
 		Scenarios: []engine.ScenarioRunner{
 			&engine.Enum[c15Row]{
 				Name: "pairs",
-				Rule: "case = one p from the value set V (3-neighbourhoods of 0, L, U, 2^33-1, mid points; plus the lattice of all multiples of 2^20 (quick) / 2^17 (thorough), each +-1); Check evaluates all q in V; every case is distinct and non-trivial (a distinct p)",
+				Rule: "case = one p from the value set V (3-neighbourhoods of 0, L, U, 2^33-1, mid points; the carry boundaries of every bit 0..32 at six places of the range, each +-1; plus the lattice of all multiples of 2^20 (quick) / 2^17 (thorough), each +-1); Check evaluates all q in V; every case is distinct and non-trivial (a distinct p)",
 				Gen: func(r *engine.Run, emit func(c15Row)) {
 					for _, p := range c15Values(r, c15Shift(r)) {
 						emit(c15Row{P: p, Lattice: c15Shift(r), Seed: r.Seed})
@@ -269,7 +282,7 @@ func init() {
 			},
 			&engine.Enum[c15AddRow]{
 				Name: "add",
-				Rule: "case = one p from V; Check runs every distance d in {1..64, L-2, L-1, L, ...} on p and on the 7 points around 2^33-d (wrap boundary); distinct p",
+				Rule: "case = one p from V; Check runs every distance d in {1..64, 2^k and 2^k+-1 for k=7..27, L-2, L-1, L, ...} on p and on the 7 points around 2^33-d (wrap boundary); distinct p",
 				Gen: func(r *engine.Run, emit func(c15AddRow)) {
 					for _, p := range c15Values(r, c15Shift(r)+3) {
 						emit(c15AddRow{P: p, Thorough: r.Thorough()})
